@@ -95,6 +95,23 @@ Technique (numbers: ALLOWED devices of RULES_GUIDE.md, "What counts as static he
        by the summary of the primitives), 6 (grammar fact: `data_transform` is not nullable - least fixpoint over the
        compiled rules - so a data-transform block without statements has no text).  Obligations: generation does not
        raise; no child-less block and no statement-less data transform is emitted.
+  R13  5 (one case per BeaconSetting member - the setting alone, its value a free symbol - and, for the sequence-valued settings,
+       one per kind of entry of the vocabularies of R3 - R5 / R10, arguments symbolic; two settings together, in both orders,
+       when their own branches attach / fill a builder object made at the same construction site of the code - the sites are
+       read off the single cases, events the empty configuration also shows are left out), 2 + 3 (the walker's paths; what is
+       read is the ORDER of the builder calls on a path and the IDENTITY of the builder objects - terms - they are made on:
+       the links between builder objects form a graph, and the profile states what is reachable from the returned object
+       through links that were made), 4 (the emptiness summary of the primitives evaluated at the position of the call,
+       `block_nonempty(upto=..)`; truth of an independent input - symbolic argument, free value - is a free choice, a test
+       on a computed term is not).  Obligations: a. whatever is put into a builder object (a statement, pair lines, a data
+       transform with statements) is linked to the returned profile; b. no builder object is attached twice.  Violated:
+       content that does not reach the profile because (i) an emptiness test of a block on its way there -
+       set_non_empty_config_block, or a decided `block.tree.children` test - came out "empty" BEFORE something was put into
+       that block (the block is tested before it is complete), (ii) the block is handed to an attach primitive on no path,
+       (iii) the attachment is skipped on a path all of whose tests are tests on independent inputs, none of them on what was
+       put there; a builder object attached twice (both nodes are made from the one child list).  Undecided: emptiness not
+       known, tests on computed terms, a value found falsy that is itself what was put there (the generator may skip it), a
+       block handed to a call the rule has no summary for, content the rule cannot see.
   R12  imported: C10.R3 (rules/c10.py `r3`) - the text renderer (as_text: reconstruction of the profile's own tree by the
        module parser; its whitespace post-processor passes every token on unchanged, once, in order; from_text parses the
        text it is given with the same parser).  Its devices (1, 2, 3, 4, 5, 6) and lemmas are declared there.  Undecided
@@ -2005,7 +2022,11 @@ def run(ctx):
         "add_termination attach the argument in both nullness cases as required; blocks are attached only when non-empty "
         "(CFG dominance); for every sequence-valued setting the case of a value without entries is followed: generation must "
         "not raise and neither a child-less block nor a data-transform block without statements (not derivable from the "
-        "grammar) may reach the returned profile; the text of the profile is the reconstruction of that tree with every token "
+        "grammar) may reach the returned profile; for every setting taken alone with content (and for two settings together when "
+        "their branches attach or fill a builder object made at the same place of the code) whatever is put into a builder object must be "
+        "linked to the returned profile by attachments that are made - the emptiness test of set_non_empty_config_block is evaluated "
+        "where it is called, so a block must be complete before it is tested - and no builder object may be attached twice (R13); "
+        "the text of the profile is the reconstruction of that tree with every token "
         "passed on unchanged by the whitespace post-processor of as_text, and from_text parses the text it is given (R12 = the "
         "obligations of C10.R3: a rewrite of the laid-out line also rewrites the inside of quoted values)."
     )
@@ -2024,11 +2045,19 @@ def run(ctx):
                        "only the per-entry effect and the kind of container the lines are collected in are judged",
                        "the text rendering of the built tree beyond token preservation by as_text / from_text (R12 = C10.R3): the keywords lark's reconstructor writes for a "
                        "tree node (C10.R1) and the literal encoding of values (C11 / C12)",
+                       "R13: configurations of three and more settings, and of two settings whose branches share no construction site; that a statement put into a block AFTER the "
+                       "block was attached still shows up in the profile (it does as long as set_config_block hands the child's list over by reference; on the current tree every block is "
+                       "complete when it is attached); content skipped under a test on the very value that was put there (the generator may choose to skip falsy values); "
+                       "attachments made by other means than the builder primitives / constructor keywords (undecided)",
                        "R2: attributes installed on a builder class by code the walker cannot follow (a decorator from outside the package, computed names): a failed lookup is undecided"]
     rep.trusted_base = ["lark grammar loader", "CPython ast", "reference BeaconGate/opcode/executor-spelling tables (csverif.tables, _CS_SPELLING, _ARG_EXECUTORS, _DECORATIONS)",
                         "the symbolic walker of rules/c13.py (path-wise value flow; models builtin containers the code builds, nothing is computed from unknown data)",
                         "summary of the ConfigBlock primitives used for `block.tree.children` tests: set_option / _enable / set_config_block add one child, a pair primitive one per line, "
-                        "set_non_empty_config_block one iff the child has children",
+                        "set_non_empty_config_block one iff the child has children at the time it is called; the node an attach primitive / a block-valued constructor keyword makes is made "
+                        "from the child's own child list (R13: a link that was not made never shows the child, one object attached twice gives two nodes with the same statements)",
+                        "R13: every combination of truth values of independent inputs (the symbolic arguments of a case, the free value of a setting) is a possible configuration; builder "
+                        "objects of different walks are matched by the constructor call that makes them",
+                        "_content_cases (R13): the values a setting is followed with - a free value, or one entry per kind of the vocabularies of R3 - R5 / R10 for the sequence-valued settings",
                         "argument kinds of program entries: flag opcodes carry True, valued opcodes a bytes value, transform keys a bytes value",
                         "text lemmas S1-S6 on concatenations with constant segments (substring of a segment; first occurrence inside the leading segment; equality refuted by "
                         "prefix / suffix / constant length; slicing inside the outer segments; case mapping distributes; prefix / suffix decided by the outer segments)",
@@ -3730,13 +3759,13 @@ class _Assembly:
                 if o.cls == "DataTransformBlock":
                     steps = _dt_steps(o)
                     if _has_entries(steps):
-                        self.content.setdefault(id(o), []).append((i, "the statements " + _show(steps)[:60]))
+                        self.content.setdefault(id(o), []).append((i, "the statements " + _show(steps)[:60], steps))
                     continue
                 for k, v in o.kwargs.items():
                     if _is_builder(v):
                         self.links.append((i, o, v, k, True, "constructor keyword"))
                     else:
-                        self.content.setdefault(id(o), []).append((i, f"the option {k}"))
+                        self.content.setdefault(id(o), []).append((i, f"the option {k}", v))
                 continue
             if ev.prim is None or not _is_builder(ev.recv):
                 continue
@@ -3752,10 +3781,10 @@ class _Assembly:
                 if made is False:
                     self.empty_tests.setdefault(id(child), []).append((i, f"{ev.recv.cls}.{ev.prim}({_show(_ev_name(ev))})"))
             elif ev.prim in ("set_option", "_enable"):
-                self.content.setdefault(id(ev.recv), []).append((i, f"the statement {_show(_ev_name(ev))}"))
+                self.content.setdefault(id(ev.recv), []).append((i, f"the statement {_show(_ev_name(ev))}", _ev_value(ev)))
             else:
                 if _has_entries(_ev_value(ev)):
-                    self.content.setdefault(id(ev.recv), []).append((i, f"the {_show(_ev_name(ev))} lines"))
+                    self.content.setdefault(id(ev.recv), []).append((i, f"the {_show(_ev_name(ev))} lines", _ev_value(ev)))
         for at, obj, outcome in it.tests:
             if outcome is False and _is_builder(obj):
                 self.empty_tests.setdefault(id(obj), []).append((at, "a test of its children"))
@@ -3783,17 +3812,38 @@ class _Assembly:
 
     def arrivals(self, o) -> list:
         """(index, what) of everything that is put into `o`: its own content and the links made from it."""
-        out = list(self.content.get(id(o), []))
+        out = [(i, what) for i, what, _term in self.content.get(id(o), [])]
         out += [(i, f"the {child.cls} {_show(n)}") for i, par, child, n, made, _pr in self.links if par is o and made is True]
         return out
 
+    def handed_elsewhere(self, o) -> Optional[str]:
+        """A call the rule has no summary for that is given the object or a part of it (its tree ...): it may attach it."""
+        def mentions(v, depth=0):
+            if v is o or (isinstance(v, (_Attr, _Obj)) and not _is_builder(v) and _root(v) is o):
+                return True
+            if depth < 3 and isinstance(v, (list, tuple)):
+                return any(mentions(x, depth + 1) for x in v)
+            if depth < 3 and isinstance(v, _Obj) and not _is_builder(v):
+                return any(mentions(x, depth + 1) for x in list(v.args) + list(v.kwargs.values()))
+            return False
 
-def _free_decisions_only(res: _Res, symbols=()) -> bool:
+        for ev in self.res.events:
+            if ev.prim is None and ev.attr != "<new>" and any(mentions(x) for x in list(ev.args) + list(ev.kwargs.values())):
+                return repr(ev)[:60]
+        return None
+
+
+def _free_decisions_only(res: _Res) -> bool:
     """Were all the unknown tests of the path tests on independent inputs (symbolic arguments of the case, the value of the
     setting)?  Then every combination of outcomes is a configuration; tests on computed terms may be correlated."""
     it = res.it
-    free = sum(1 for v, _d in it._decided.values() if isinstance(v, (_Val, _Free)) or any(v is x for x in symbols))
+    free = sum(1 for v, _d in it._decided.values() if isinstance(v, (_Val, _Free)))
     return free == len(it.oracle.made)
+
+
+def _found_falsy(res: _Res) -> list:
+    """The independent inputs a test of the path found falsy (an empty / zero value: one the generator may choose to skip)."""
+    return [v for v, d in res.it._decided.values() if isinstance(v, (_Val, _Free)) and not d]
 
 
 def _assembly_findings(paths: List[_Res]) -> Tuple[List[str], List[str], int, list]:
@@ -3819,6 +3869,7 @@ def _assembly_findings(paths: List[_Res]) -> Tuple[List[str], List[str], int, li
             if oid in sure:
                 continue
             desc = f"{what[0][1]} put into the {o.cls} made at `{_made_at(o)}`"
+            terms = [t for _i, _w, t in what]
             if oid in maybe:
                 unknown.append(f"{desc}: whether a block on its way to the profile had children when set_non_empty_config_block was called is not known")
                 continue
@@ -3836,13 +3887,19 @@ def _assembly_findings(paths: List[_Res]) -> Tuple[List[str], List[str], int, li
                 bad.append(f"{desc} never reaches the returned profile: {cause}")
                 continue
             top = [y for y in chain if not any(child is y and made is not False for _i, _p, child, _n, made, _pr in a.links)]
+            elsewhere = [w for w in (a.handed_elsewhere(y) for y in top) if w]
             never = [y for y in top if y.node is not None and id(y.node) not in handed]
-            if never:
+            if elsewhere:
+                unknown.append(f"{desc} is not attached with a builder primitive, but the block is handed to {elsewhere[0]}, which the rule has no summary for")
+            elif never:
                 bad.append(f"{desc} never reaches the returned profile: the {never[0].cls} made at `{_made_at(never[0])}` is not handed to set_config_block / set_non_empty_config_block on any path")
-            elif _free_decisions_only(a.res):
-                bad.append(f"{desc} does not reach the returned profile on a path on which it is put there: the block is attached under a condition that does not cover this content")
-            else:
+            elif not _free_decisions_only(a.res):
                 unknown.append(f"{desc} does not reach the returned profile on a path whose tests are made on computed values: whether that path is possible is not known")
+            elif any(_depends_on(t, x) for t in terms for x in _found_falsy(a.res)):
+                unknown.append(f"{desc} does not reach the returned profile on a path on which a test finds that very value falsy: a value the generator may choose to skip")
+            else:
+                bad.append(f"{desc} does not reach the returned profile on a path on which it is put there (the tests of that path are tests on independent inputs, none of them on what is put there): "
+                           "the block is attached under a condition that does not cover this content")
         # b. one object, one block
         for oid, o in a.objs.items():
             ls = [(par, n, made) for _i, par, child, n, made, _pr in a.links if child is o and made is not False]
